@@ -1,6 +1,35 @@
 """C07 -- account balances equal the flows of each account and reconcile with unsold lots."""
-from harness import core, hist, l4, oracle
+import json
+import os
+
+from harness import core, hist, l2, l4, oracle
 from harness.props.c09 import dates_monotone
+
+CORPUS = os.path.join(core.VERIF, "corpus", "C07")
+
+
+def corpus_runs():
+    """corpus/C07/*.json (replays of repaired defects: {"case": {"case": history, "from": f, "to": t}}), run first on every
+    check with exactly the stored window -> (jobs, impl, model, base cases, base impl), indices relative to the returned base"""
+    reps = []
+    if os.path.isdir(CORPUS):
+        for f in sorted(os.listdir(CORPUS)):
+            if f.endswith(".json"):
+                with open(os.path.join(CORPUS, f), encoding="utf-8") as fh:
+                    reps.append(json.load(fh)["case"])
+    if not reps:
+        return [], [], [], [], []
+    cases = [r["case"] for r in reps]
+    base_impl = core.pool_map(l2._impl_matcher, cases, init=core.impl_env_setup)
+    impl = core.pool_map(l4._impl_win, [(r["case"], r.get("from"), r.get("to"), True) for r in reps], init=core.impl_env_setup)
+    lines = []
+    for r, b in zip(reps, base_impl):
+        fr = [(x["ev"], x["lot"], x["amt"]) for x in b["ok"]["fractions"]] if "ok" in b else []
+        lines.append(hist.line(30, l4.encode_input(r["case"], fr, r.get("from"), r.get("to"), True)))
+    raw = core.run_model(lines)
+    model = [l4.decode_computed(x, r["case"]) for x, r in zip(raw, reps)]
+    jobs = [[k, r.get("from"), r.get("to")] for k, r in enumerate(reps)]
+    return jobs, impl, model, cases, base_impl
 
 
 def run(tier, build, replay=None):
@@ -15,7 +44,11 @@ def run(tier, build, replay=None):
         raw = core.run_model([hist.line(30, l4.encode_input(c, fr, f, t, True))])
         data = {"jobs": [[0, f, t]], "impl": [i], "model": [l4.decode_computed(raw[0], c)], "base": {"cases": [c], "impl": [b]}}
     else:
-        data = l4.run(tier)
+        gen = l4.run(tier)
+        cj, ci, cm, cc, cb = corpus_runs()
+        n0 = len(cc)
+        data = {"jobs": cj + [[idx + n0, f, t] for idx, f, t in gen["jobs"]], "impl": ci + gen["impl"], "model": cm + gen["model"],
+                "base": {"cases": cc + gen["base"]["cases"], "impl": cb + gen["base"]["impl"]}}
     base = data["base"]
     nontriv, mism = set(), 0
     for (idx, f, t), i, m in zip(data["jobs"], data["impl"], data["model"]):
@@ -54,7 +87,8 @@ def run(tier, build, replay=None):
             consistent = all(r.get("crypto_out_with_fee") in (None, r["crypto_out_no_fee"] + r["crypto_fee"]) for r in c["outs"])
             if total_final != left and consistent:
                 evs = hist.taxable_oracle(c)
-                dust = sum(e["amt"] for e in evs if e["cls"] == 2 and not hist.intra_fee_taxed(e))
+                # informational tag only (the shape of the repaired finding F8): no known: line matches it any more
+                dust = sum(e["amt"] for e in evs if e["cls"] == 2 and hist.is_dust_fee(e))
                 tg = {"dust-transfer-fee"} if dust and left - total_final == dust else set()
                 out.violation(f"sum of final balances {total_final} != amount left unconsumed in lots {left}", rep, tags=tg | {"reconciliation"})
         if len(got) >= 2 and c["intras"]:
@@ -67,13 +101,15 @@ def run(tier, build, replay=None):
     out.coverage.update({
         "evaluations": len(data["jobs"]),
         "distinct_nontrivial": len(nontriv),
-        "rule": "generated histories over 1-3 exchanges x 1-3 holders with transfers (also to self), windows none/from/to/both; balance table compared with "
+        "rule": "corpus/C07 replays first (stored window), then generated histories over 1-3 exchanges x 1-3 holders with transfers (also to self, "
+                "also with fees worth less than 5e-14), windows none/from/to/both; balance table compared with "
                 "flows recomputed from the raw rows, with the lots' unconsumed remainder (whole-history runs) and with the Coq model; non-trivial = "
                 ">= 2 accounts and at least one transfer",
         "samples": [{"case": base["cases"][data["jobs"][0][0]], "from": data["jobs"][0][1], "to": data["jobs"][0][2]}] if data["jobs"] else [],
         "traces_validated_against_impl": len(data["jobs"]),
         "correspondence_mismatches": mism,
     })
-    out.assumptions = ["reconciliation assumes a supplied crypto_out_with_fee equal to amount + fee and no dust transfer fee (finding F8)",
+    out.assumptions = ["reconciliation assumes a supplied crypto_out_with_fee equal to amount + fee; nothing is assumed about small transfer fees "
+                       "(finding F8 is repaired; its replay corpus/C07/f8-dust-transfer-fee.json runs first, whole history)",
                        "to-date cut assumes local dates monotone in time (finding F9)"]
     return out.finish(proofs, build)
